@@ -122,3 +122,50 @@ Proof.
   destruct (Req_EM_T pz qz) as [->|N3]; [|right; intro E; injection E; intros; contradiction].
   left. reflexivity.
 Qed.
+
+(** an argument of a point is unique in (-pi, pi] *)
+Lemma sin_zero_open (h : R) : - PI < h < PI -> sin h = 0 -> h = 0.
+Proof.
+  intros [L U] S. destruct (Rle_dec 0 h) as [P|N].
+  - destruct (sin_eq_O_2PI_0 h P) as [E|[E|E]]; lra.
+  - assert (S' : sin (- h) = 0) by (rewrite sin_neg; lra).
+    assert (P' : 0 <= - h) by lra.
+    destruct (sin_eq_O_2PI_0 (- h) P') as [E|[E|E]]; lra.
+Qed.
+
+Lemma is_arg_unique (y x t1 t2 : R) :
+  is_arg y x t1 -> is_arg y x t2 -> - PI < t1 <= PI -> - PI < t2 <= PI -> t1 = t2.
+Proof.
+  intros [r1 [R1 [Y1 X1]]] [r2 [R2 [Y2 X2]]] B1 B2.
+  assert (Er : r1 = r2).
+  { assert (E : r1 * r1 = r2 * r2).
+    { pose proof (sin2_cos2 t1) as P1. pose proof (sin2_cos2 t2) as P2. unfold Rsqr in P1, P2.
+      replace (r1 * r1) with ((r1 * sin t1) * (r1 * sin t1) + (r1 * cos t1) * (r1 * cos t1)) by (rewrite <- (Rmult_1_r (r1 * r1)), <- P1; ring).
+      replace (r2 * r2) with ((r2 * sin t2) * (r2 * sin t2) + (r2 * cos t2) * (r2 * cos t2)) by (rewrite <- (Rmult_1_r (r2 * r2)), <- P2; ring).
+      rewrite <- Y1, <- X1, <- Y2, <- X2. reflexivity. }
+    nra. }
+  subst r2.
+  assert (Es : sin t1 = sin t2) by (apply Rmult_eq_reg_l with r1; lra).
+  assert (Ec : cos t1 = cos t2) by (apply Rmult_eq_reg_l with r1; lra).
+  set (h := (t1 - t2) / 2).
+  assert (Hc : cos (2 * h) = 1).
+  { unfold h. replace (2 * ((t1 - t2) / 2)) with (t1 - t2) by field. rewrite cos_minus, Es, Ec.
+    pose proof (sin2_cos2 t2) as P. unfold Rsqr in P. lra. }
+  assert (Hs : sin h = 0).
+  { rewrite cos_2a_sin in Hc. assert (sin h * sin h = 0) by lra. apply Rsqr_0_uniq. exact H. }
+  assert (h = 0) by (apply sin_zero_open; [unfold h; lra | exact Hs]).
+  unfold h in H. lra.
+Qed.
+
+Lemma Ratan2_gt_mPI (y x : R) : (x <> 0 \/ y <> 0) -> - PI < Ratan2 y x.
+Proof.
+  intro H. pose proof (sqrt_sumsq_pos x y H) as Hr. pose proof PI_RGT_0 as HP.
+  unfold Ratan2. set (r := sqrt (x * x + y * y)) in *.
+  assert (Hrr : r * r = x * x + y * y) by (unfold r; apply sqrt_sqrt; nra).
+  destruct (Rle_dec 0 y) as [Hy|Hy].
+  - pose proof (acos_bound (x / r)). lra.
+  - assert (Hc : -1 < x / r < 1).
+    { assert (Hx : - r < x < r) by (split; nra).
+      split; apply Rmult_lt_reg_r with r; try assumption; unfold Rdiv; rewrite Rmult_assoc, Rinv_l by lra; lra. }
+    pose proof (acos_bound_lt (x / r) Hc). lra.
+Qed.
